@@ -5,12 +5,16 @@ set -u
 WT=$1; M=$2; shift 2; PROPS="$@"
 export GOFLAGS=-mod=mod GOPROXY=off GOSUMDB=off GOTOOLCHAIN=local
 GO=/root/go/pkg/mod/golang.org/toolchain@v0.0.1-go1.25.0.linux-amd64/bin/go
+export GO
+go() { "$GO" "$@"; }
+export -f go 2>/dev/null
+export PATH=$(dirname $GO):$PATH
 cd $WT || exit 9
 git checkout -q -- . ; git clean -fdq -e OUT
 meta=$M/meta.json
 place=$(python3 -c "import json;print(json.load(open('$meta')).get('demo_place_at',''))")
 demo=$(python3 -c "import json;print(json.load(open('$meta')).get('demo_file',''))")
-cmd=$(python3 -c "import json;print(json.load(open('$meta')).get('demo_cmd',''))")
+cmd=$(python3 -c "import json,re;print(re.split(r'\s{2,}\(', json.load(open('$meta')).get('demo_cmd',''))[0])")
 echo "== meta: place=$place demo=$demo"; echo "== cmd: $cmd"
 src=$M/$(basename "$demo"); [ -f "$src" ] || src=$(ls $M/*_test.go $M/*.go 2>/dev/null | head -1)
 dst="$place"; case "$dst" in */) dst="$dst$(basename $src)";; esac
